@@ -439,6 +439,51 @@ impl Driver for Refragment {
     }
 }
 
+/// Replays recorded steps while the network delivers the broker's bytes in pieces separated by
+/// pauses: a stall (gate) is set before steps, and a poll()/recv() that the caller gave up on
+/// while the stream was stalled is issued again (those extra calls are not compared).
+struct Gapped {
+    steps: VecDeque<Step>,
+    rng: Rng,
+    queued: VecDeque<Step>,
+    /// the step to repeat if it times out on a stalled stream
+    last: Option<Step>,
+    retries: usize,
+    /// indices (into log.ops) of calls that timed out on a stalled stream
+    pub noise: Vec<usize>,
+    pub gates: usize,
+    gate_pct: u32,
+}
+
+impl Driver for Gapped {
+    fn next(&mut self, v: &View<'_>) -> Option<Step> {
+        if let Some(s) = self.queued.pop_front() {
+            return Some(s);
+        }
+        // did the previous call give up on a stalled stream?
+        if let (Some(last), Some(op)) = (&self.last, v.log.ops.last()) {
+            let waited = matches!(last, Step::Poll { .. } | Step::Recv { .. });
+            let stalled = v.world.events[op.ev_call..].iter().any(|e| matches!(e, Ev::GateHit { .. }));
+            if waited && stalled && op.outcome == Outcome::CallerTimeout && self.retries < 100 {
+                self.retries += 1;
+                self.noise.push(v.log.ops.len() - 1);
+                return Some(last.clone());
+            }
+        }
+        self.retries = 0;
+        let s = self.steps.pop_front()?;
+        self.last = Some(s.clone());
+        let gateable = v.has_handle && v.is_connected && !matches!(s, Step::Connect(_) | Step::DropConn | Step::ForgetConn | Step::IntoInner | Step::Broker(BrokerAct::Gate { .. }));
+        if gateable && self.rng.chance(self.gate_pct, 100) {
+            self.gates += 1;
+            self.queued.push_back(s);
+            let after = *self.rng.pick(&[0usize, 1, 2, 3, 4, 5, 7, 9, 12, 20]);
+            return Some(Step::Broker(BrokerAct::Gate { after, blocks: 1 + self.rng.below(2) as u8 }));
+        }
+        Some(s)
+    }
+}
+
 pub struct C15;
 
 fn c15_profile(r: &mut Rng) -> Profile {
@@ -483,7 +528,7 @@ impl Check for C15 {
         if tier == Tier::Quick { 300 } else { 3000 }
     }
     fn required_counters(&self) -> Vec<&'static str> {
-        vec!["twins_compared", "chunkings_enumerated_exhaustively", "variants_with_split_packets"]
+        vec!["twins_compared", "chunkings_enumerated_exhaustively", "variants_with_split_packets", "stalls_inside_a_packet", "calls_repeated_after_a_stall"]
     }
     fn exhaustive(&self) -> bool {
         true
@@ -582,14 +627,52 @@ impl Check for C15 {
             // splits right after the first byte and inside the remaining length of the first packets
             variants.push((IoPolicy::default(), Some((0, vec![1, 1, 1, 1, 1, 2, 1])), "split-in-header".into()));
         }
+        // time-gapped delivery: the same stream arrives in pieces with pauses in between
+        if !short_stream {
+            let n = if tier == Tier::Quick { 3 } else { 6 };
+            for k in 0..n {
+                let p = IoPolicy { write: Chunk::All, read: *rng.pick(&[Chunk::All, Chunk::One, Chunk::Rand]), pend_write: Pend::Never, pend_flush: Pend::Never, pend_read: Pend::Never, read_chunks: vec![] };
+                variants.push((p, None, format!("gapped-{}", k)));
+            }
+        }
         let mut shown = false;
         for (policy, chunks, name) in variants {
-            let (blog, bworld) = exec(policy, chunks);
+            let gapped = name.starts_with("gapped");
+            let (blog, bworld, noise) = if gapped {
+                let mut d = Gapped { steps: steps.clone().into(), rng: Rng::new(rng.next()), queued: VecDeque::new(), last: None, retries: 0, noise: vec![], gates: 0, gate_pct: 60 };
+                struct WithPolicy<'a>(&'a mut Gapped, IoPolicy);
+                impl Driver for WithPolicy<'_> {
+                    fn next(&mut self, v: &View<'_>) -> Option<Step> {
+                        let mut s = self.0.next(v)?;
+                        if let Step::Connect(c) = &mut s {
+                            c.policy = self.1.clone();
+                        }
+                        Some(s)
+                    }
+                }
+                let (l, w) = run_case(&cfg, seed, &mut WithPolicy(&mut d, policy), steps.len() * 60 + 64);
+                (l, w, d.noise)
+            } else {
+                let (l, w) = exec(policy, chunks);
+                (l, w, vec![])
+            };
             let bw = bworld.borrow();
             out.evaluations += 1;
             out.count("twins_compared", 1);
             let b_obs = observe(&blog, &bw);
-            let b_res: Vec<(&'static str, Outcome)> = blog.ops.iter().map(|o| (o.kind, o.outcome.clone())).collect();
+            let b_res: Vec<(&'static str, Outcome)> = blog.ops.iter().enumerate().filter(|(i, _)| !noise.contains(i)).map(|(_, o)| (o.kind, o.outcome.clone())).collect();
+            if gapped {
+                let hits = bw.events.iter().filter(|e| matches!(e, Ev::GateHit { .. })).count();
+                // a stall inside a packet: the reader had taken part of it when it ran dry
+                let inside = bw.events.iter().filter(|e| matches!(e, Ev::GateHit { conn, offset } if bw.conns[*conn].in_pkts.iter().any(|p| p.start < *offset && *offset < p.end))).count();
+                out.count("stalls_hit", hits as u64);
+                out.count("stalls_inside_a_packet", inside as u64);
+                out.count("calls_repeated_after_a_stall", noise.len() as u64);
+                if inside > 0 {
+                    out.count("variants_with_split_packets", 1);
+                    out.nontrivial.push(hash_of(&(abstract_trace(&blog, &bw), name.clone(), inside)));
+                }
+            }
             let before = out.violations.len();
             if a_res != b_res {
                 let i = a_res.iter().zip(&b_res).position(|(x, y)| x != y).unwrap_or(a_res.len().min(b_res.len()));
